@@ -49,6 +49,54 @@ fn check_case(c: &SeqCase, obs: &mut Obs) -> Verdict {
     if e != l {
         return Verdict::Fail(format!("{} raw stream reports {} equal items, LCS is {}", alg_name(c.alg), e, l));
     }
+    // minimality must survive a re-entrant hook (nested diffs with the same algorithm from inside
+    // the callbacks) ...
+    if n + m <= 40 {
+        match guard(|| {
+            let mut h = NestingRecorder::new(alg_of(c.alg));
+            similar::algorithms::diff(alg_of(c.alg), &mut h, &c.old[..], c.old_r(), &c.new[..], c.new_r()).unwrap();
+            h.rec.events
+        }) {
+            Ok(e2) if e2 == ev => {}
+            Ok(e2) => {
+                let (d2, i2, _) = events_cost(&e2);
+                return Verdict::Fail(format!("{}: with a hook that runs nested diffs inside its callbacks the script has {} edits ({:?}), with a plain hook {} ({:?}); a shortest script has {}", alg_name(c.alg), d2 + i2, e2, d + i, ev, want));
+            }
+            Err(p) => return Verdict::Fail(format!("{} with a re-entrant hook: {}", alg_name(c.alg), p)),
+        }
+    }
+    // ... and the integer mapping of items whose lawful Hash is coarse (IdentifyDistinct + capture_diff)
+    if n + m <= 40 {
+        let oc: Vec<crate::oracle::items::Coarse> = c.old.iter().map(|x| crate::oracle::items::Coarse(*x)).collect();
+        let nc: Vec<crate::oracle::items::Coarse> = c.new.iter().map(|x| crate::oracle::items::Coarse(*x)).collect();
+        match guard(|| {
+            let h = similar::algorithms::IdentifyDistinct::<u32>::new(&oc[..], c.old_r(), &nc[..], c.new_r());
+            similar::capture_diff(alg_of(c.alg), h.old_lookup(), h.old_range(), h.new_lookup(), h.new_range())
+        }) {
+            Ok(o) => {
+                let (d2, i2, e2) = ops_cost(&o);
+                if d2 + i2 != want || e2 != l {
+                    return Verdict::Fail(format!("{} over IdentifyDistinct ids of items with a coarse Hash: {} edits / {} kept, a shortest script has {} / {} (ops {:?})", alg_name(c.alg), d2 + i2, e2, want, l, o));
+                }
+            }
+            Err(p) => return Verdict::Fail(format!("IdentifyDistinct over coarse-hash items: {}", p)),
+        }
+    }
+    // two different sequences at one address: the old Vec against a transparent back-to-front view of it
+    if c.is_full() && n <= 24 && n > 0 {
+        let view = Reversed(c.old.clone());
+        let rev: Vec<u32> = c.old.iter().rev().cloned().collect();
+        let l2 = lcs_len(&c.old[..], &rev[..]);
+        match guard(|| similar::capture_diff(alg_of(c.alg), &view.0, 0..n, &view, 0..n)) {
+            Ok(o) => {
+                let (d2, i2, e2) = ops_cost(&o);
+                if d2 + i2 != 2 * n - 2 * l2 || e2 != l2 {
+                    return Verdict::Fail(format!("{}: {:?} diffed against a transparent back-to-front view of itself (same address): {} edits / {} kept, a shortest script has {} / {} (ops {:?})", alg_name(c.alg), c.old, d2 + i2, e2, 2 * n - 2 * l2, l2, o));
+                }
+            }
+            Err(p) => return Verdict::Fail(format!("diffing a Vec against a back-to-front view of itself: {}", p)),
+        }
+    }
     let ops = match capture(&c, None) {
         Ok(o) => o,
         Err(p) => return Verdict::Fail(format!("capture: {}", p)),
@@ -221,7 +269,7 @@ impl Prop for C03 {
     type Case = SeqCase;
     const ID: &'static str = "C03";
     fn rule() -> String {
-        "cases = (Myers|Lcs, old, new, ranges, capture entry point), no deadline; size-ordered enumeration of all pairs over {0,1,2} plus proptest mixture (small alphabets, forced common prefix/suffix, sub-ranges; Myers with D in the hundreds; LCS on 130-420 distinct items rearranged by block moves or unrelated filler around a few shared blocks). Oracle: independent O(NM) LCS length L; raw stream and captured ops must delete+insert exactly N+M-2L items, keep exactly L, and ratio == 2L/(N+M) (f32, same rounding). Non-trivial = 0 < L < min(N,M) and D > 0; distinct = distinct serialized case.".into()
+        "cases = (Myers|Lcs, old, new, ranges, capture entry point), no deadline; size-ordered enumeration of all pairs over {0,1,2} plus proptest mixture (small alphabets, forced common prefix/suffix, sub-ranges; Myers with D in the hundreds; LCS on 130-420 distinct items rearranged by block moves or unrelated filler around a few shared blocks). Oracle: independent O(NM) LCS length L; raw stream and captured ops must delete+insert exactly N+M-2L items, keep exactly L, and ratio == 2L/(N+M) (f32, same rounding). Small cases are also diffed through a re-entrant hook (nested diffs inside the callbacks), through IdentifyDistinct ids of coarse-hash items, and against a transparent back-to-front view of the old Vec (same address): all must stay minimal. Non-trivial = 0 < L < min(N,M) and D > 0; distinct = distinct serialized case.".into()
     }
     fn assumptions() -> Vec<String> {
         vec!["LCS inputs are mostly <= 100 items (its table is a BTreeMap), 1 case in ~120 has 130-420 items per side; Myers up to 900".into()]
@@ -244,7 +292,7 @@ impl Prop for C03 {
                     gen: enum_large,
                 },
             },
-            Stage { name: "random", kind: StageKind::Random { strategy: strat, cases: tier.pick(400_000, 1_200_000) } },
+            Stage { name: "random", kind: StageKind::Random { strategy: strat, cases: tier.pick(300_000, 1_200_000) } },
         ]
     }
     fn check(case: &SeqCase, obs: &mut Obs) -> Verdict {
